@@ -1,9 +1,24 @@
-"""C11 — every encoding decodes its own output.  E1 (CBMC) obligations: props/C11_e1.py; the E2 obligations (decoders on
-arbitrary bytes, streaming decoder under symbolic chunking, whole DELTA_* encoders, dictionary encoder) are appended here."""
-from props import C11_e1
-FILES = C11_e1.FILES
-BUDGET = C11_e1.BUDGET
+"""C11 — every encoding decodes its own output.
+E1 half (props/C11_e1.py, CBMC on the real encoders/decoders: PLAIN, RLE hybrid, raw bit packing, DELTA_*, BYTE_STREAM_SPLIT, dictionary, one inductive step of the RLE encoder).
+E2 half (props/C11_e2.py, symx): whole encoder -> decoder round trips with symbolic values (RLE incl. level wrappers, DELTA_BINARY_PACKED,
+DELTA_LENGTH/DELTA_BYTE_ARRAY, dictionary) and the streaming decoder under symbolic get/skip scripts against the one-shot decode."""
+from props import C11_e1 as _e1, C11_e2 as _e2
+FILES = sorted(set(_e1.FILES) | set(_e2.FILES))
+BUDGET = {'quick': 840, 'thorough': 3600}
 
 
 def obligations(tier):
-    return C11_e1.obligations(tier)
+    return _e1.obligations(tier) + _e2.obligations(tier)
+
+
+def evidence_extra(tier):
+    out = {}
+    for m in (_e1, _e2):
+        for k, v in (getattr(m, 'evidence_extra', lambda t: {})(tier) or {}).items():
+            if isinstance(v, list) and isinstance(out.get(k), list):
+                out[k] = out[k] + v
+            elif isinstance(v, dict) and isinstance(out.get(k), dict):
+                out[k].update(v)
+            else:
+                out.setdefault(k, v)
+    return out
